@@ -22,6 +22,8 @@
 //        -> two lines: the result, and the `rrtplay …` line (recorded draws) for the Lean driver
 //   sst  SYS ENV starts <n> (<reals>)*n GOAL sel=<bits> prune=<bits> bias=<bits> seed=<n> iters=<n>
 //        -> two lines: the result (with tree + witnesses), and the `sstplay …` line for the Lean driver
+//   est  SYS ENV starts <n> (<reals>)*n GOAL cell=<bits> k=<n> att=<n> bias=<bits> seed=<n> iters=<n>   -> result + `estplay …`
+//   kpiece SYS ENV starts <n> (<reals>)*n GOAL cell=<bits> nclose=<n> bias=<bits> seed=<n> iters=<n>   -> result + `kpieceplay …`
 //   plan <planner> SYS ENV starts <n> (<reals>)*n goal <reals> <thr> k=<n> bias=<bits> seed=<n> budget=<n>
 //
 // doubles are decimal u64 bit patterns.  The three systems are written here once (SysPropagator) and
@@ -44,6 +46,7 @@
 #include <ompl/base/goals/GoalSampleableRegion.h>
 #include <ompl/base/goals/GoalRegion.h>
 #include <ompl/base/ProjectionEvaluator.h>
+#include <ompl/base/samplers/UniformValidStateSampler.h>
 #include <ompl/datastructures/NearestNeighborsLinear.h>
 #include <ompl/util/RandomNumbers.h>
 #include <map>
@@ -361,6 +364,42 @@ private:
 };
 
 
+
+// records the outcome of the valid-state sampler (control::EST: sampler_->sampleNear)
+class RecValidSampler : public ob::ValidStateSampler
+{
+public:
+    RecValidSampler(const ob::SpaceInformation *si, Events *ev, unsigned attempts = 100)
+      : ob::ValidStateSampler(si), inner_(std::make_shared<ob::UniformValidStateSampler>(si)), ev_(ev)
+    {
+        inner_->setNrAttempts(attempts);
+    }
+    bool sample(ob::State *s) override
+    {
+        return note(inner_->sample(s), s);
+    }
+    bool sampleNear(ob::State *s, const ob::State *near, double d) override
+    {
+        return note(inner_->sampleNear(s, near, d), s);
+    }
+
+private:
+    bool note(bool ok, const ob::State *s)
+    {
+        if (ok)
+        {
+            std::vector<double> r;
+            si_->getStateSpace()->copyToReals(r, s);
+            ev_->log += " N " + vp::showReals(r);
+        }
+        else
+            ev_->log += " X";
+        return ok;
+    }
+    std::shared_ptr<ob::UniformValidStateSampler> inner_;
+    Events *ev_;
+};
+
 // ------------------------------------------------------------------------------------------ scripted samplers (rrtplay)
 struct DrawScript
 {
@@ -436,7 +475,7 @@ private:
 class XYProjection : public ob::ProjectionEvaluator
 {
 public:
-    XYProjection(const ob::StateSpacePtr &sp, const Sys &sys) : ob::ProjectionEvaluator(sp)
+    XYProjection(const ob::StateSpacePtr &sp, const Sys &sys, double cell = 1.0) : ob::ProjectionEvaluator(sp), cell_(cell)
     {
         ob::RealVectorBounds b(2);
         for (unsigned j = 0; j < 2; ++j)
@@ -452,8 +491,9 @@ public:
     }
     void defaultCellSizes() override
     {
-        cellSizes_.assign(2, 1.0);
+        cellSizes_.assign(2, cell_);
     }
+    double cell_;
     void project(const ob::State *s, Eigen::Ref<Eigen::VectorXd> p) const override
     {
         std::vector<double> r;
@@ -1111,6 +1151,203 @@ static std::string opSst(const Toks &t, std::string &playLine)
     return out;
 }
 
+// control::EST with its grid, PDF and RNG reachable (all protected)
+class ESTx : public oc::EST
+{
+public:
+    using oc::EST::EST;
+    void seedRng(std::uint_fast32_t s)
+    {
+        rng_.setLocalSeed(s);
+    }
+    // cells in lexicographic coordinate order; motions in cell order; a parent is named by (cell coordinate, position)
+    std::string dump(const Sys &sys) const
+    {
+        std::map<std::pair<int, int>, const GridCell *> cells;
+        std::map<const Motion *, std::string> name;
+        for (auto it = tree_.grid.begin(); it != tree_.grid.end(); ++it)
+        {
+            const GridCell *c = it->second;
+            cells[{c->coord[0], c->coord[1]}] = c;
+            for (size_t j = 0; j < c->data.motions_.size(); ++j)
+                name[c->data.motions_[j]] =
+                    std::to_string(c->coord[0]) + " " + std::to_string(c->coord[1]) + " " + std::to_string(j);
+        }
+        std::string s = "est size=" + std::to_string(tree_.size) + " cells=" + std::to_string(cells.size()) + " pdf=" +
+                        std::to_string(pdf_.size());
+        for (auto &kv : cells)
+        {
+            const GridCell *c = kv.second;
+            s += " [" + std::to_string(kv.first.first) + " " + std::to_string(kv.first.second) + " ; " +
+                 vp::bits(pdf_.getWeight(c->data.elem_)) + " ; " + std::to_string(c->data.motions_.size());
+            for (const Motion *m : c->data.motions_)
+                s += " {" + showSt(sys, m->state) + " ; " + showCt(m->control) + " ; " + std::to_string(m->steps) + " ; " +
+                     (m->parent ? name.at(m->parent) : std::string("-")) + "}";
+            s += "]";
+        }
+        return s;
+    }
+};
+
+// `est SYS ENV starts … GOAL cell=<bits> k=<n> bias=<bits> seed=<n> iters=<n>` -> the result line and the `estplay …` line.
+// The planner's own RNG (pdf sample, index inside the cell, goal bias) is re-seeded with a known local seed; the Lean model
+// runs the bit-exact RNG model from the same seed.  Recorded: valid-state-sampler outcomes (N/X), goal samples (G), the
+// control sampler's controls and step counts (C/K).
+static std::string opEst(const Toks &t, std::string &playLine)
+{
+    size_t i = 1;
+    Problem pb;
+    pb.parse(t, i);
+    double cell = needKVbits(t, i, "cell");
+    unsigned k = needKV(t, i, "k");
+    unsigned att = needKV(t, i, "att");
+    double bias = needKVbits(t, i, "bias");
+    unsigned long seed = needKV(t, i, "seed");
+    unsigned long iters = needKV(t, i, "iters");
+    if (i != t.size() || iters > 2000000 || !(cell > 1e-6) || k < 1 || k > 50 || !(bias >= 0) || !(bias <= 1) || att < 1 ||
+        att > 1000)
+        throw vp::ParseError("est args");
+    const std::uint_fast32_t lseed = (std::uint_fast32_t)((seed * 7919u + 12345u) % 4000000000u + 1u);
+    playLine = "estplay";
+    for (size_t j = 1; j < t.size(); ++j)
+        if (t[j].rfind("k=", 0) != 0 && t[j].rfind("att=", 0) != 0 && t[j].rfind("seed=", 0) != 0 && t[j].rfind("iters=", 0) != 0)
+            playLine += " " + t[j];
+    playLine += " lseed=" + std::to_string(lseed);
+    ompl::RNG::setSeed(seed + 1);
+    Events ev;
+    const Sys &sys = pb.sys;
+    std::shared_ptr<SysPropagator> prop;
+    auto si = makeSI(sys, prop);
+    si->setStateValidityChecker(std::make_shared<EnvValidity>(si, pb.env));
+    si->setValidStateSamplerAllocator(
+        [&ev, att](const ob::SpaceInformation *s) { return std::make_shared<RecValidSampler>(s, &ev, att); });
+    sys.cspace->setControlSamplerAllocator([&ev](const oc::ControlSpace *cs) {
+        return std::make_shared<RecControlSampler>(cs, cs->allocDefaultControlSampler(), &ev);
+    });
+    si->setDirectedControlSamplerAllocator(
+        [k](const oc::SpaceInformation *s) { return std::make_shared<oc::SimpleDirectedControlSampler>(s, k); });
+    si->setup();
+    auto pdef = std::make_shared<ob::ProblemDefinition>(si);
+    ob::State *s0 = si->allocState();
+    for (const auto &st0 : pb.starts)
+    {
+        sys.space->copyFromReals(s0, st0);
+        pdef->addStartState(s0);
+    }
+    si->freeState(s0);
+    pdef->setGoal(makeGoal(pb.goalKind, si, pb.goal, pb.thr, &ev));
+    auto planner = std::make_shared<ESTx>(si);
+    planner->setProjectionEvaluator(std::make_shared<XYProjection>(sys.space, sys, cell));
+    planner->setGoalBias(bias);
+    planner->setProblemDefinition(pdef);
+    planner->setup();
+    planner->seedRng(lseed);
+    ev.log.clear();
+    auto cnt = std::make_shared<vp::EvalCounter>();
+    cnt->fireAt = iters;
+    ob::PlannerStatus st = planner->solve(vp::evalCountPtc(cnt));
+    playLine += " draws" + ev.log;
+    return showSolution(sys, pdef, st, *si) + " | " + planner->dump(sys);
+}
+
+// control::KPIECE1 with its grid and RNG reachable (all protected)
+class KPIECEx : public oc::KPIECE1
+{
+public:
+    using oc::KPIECE1::KPIECE1;
+    void seedRng(std::uint_fast32_t s)
+    {
+        rng_.setLocalSeed(s);
+    }
+    std::string dump(const Sys &sys) const
+    {
+        Grid::CellArray arr;
+        tree_.grid.getCells(arr);
+        std::map<std::pair<int, int>, const Grid::Cell *> cells;
+        std::map<const Motion *, std::string> name;
+        for (const Grid::Cell *c : arr)
+        {
+            cells[{c->coord[0], c->coord[1]}] = c;
+            for (size_t j = 0; j < c->data->motions.size(); ++j)
+                name[c->data->motions[j]] =
+                    std::to_string(c->coord[0]) + " " + std::to_string(c->coord[1]) + " " + std::to_string(j);
+        }
+        std::string s = "kpiece size=" + std::to_string(tree_.size) + " cells=" + std::to_string(cells.size()) +
+                        " iteration=" + std::to_string(tree_.iteration) + " int=" + std::to_string(tree_.grid.countInternal()) +
+                        " ext=" + std::to_string(tree_.grid.countExternal());
+        for (auto &kv : cells)
+        {
+            const Grid::Cell *c = kv.second;
+            const CellData &d = *c->data;
+            s += " [" + std::to_string(kv.first.first) + " " + std::to_string(kv.first.second) + " ; " + vp::bits(d.coverage) +
+                 " ; " + std::to_string(d.selections) + " ; " + vp::bits(d.score) + " ; " + std::to_string(d.iteration) + " ; " +
+                 vp::bits(d.importance) + " ; " + std::to_string(c->neighbors) + " ; " + (c->border ? "1" : "0") + " ; " +
+                 std::to_string(d.motions.size());
+            for (const Motion *m : d.motions)
+                s += " {" + showSt(sys, m->state) + " ; " + showCt(m->control) + " ; " + std::to_string(m->steps) + " ; " +
+                     (m->parent ? name.at(m->parent) : std::string("-")) + "}";
+            s += "]";
+        }
+        return s;
+    }
+};
+
+// `kpiece SYS ENV starts … GOAL cell=<bits> nclose=<n> bias=<bits> seed=<n> iters=<n>` -> result + `kpieceplay …`.
+// The planner's RNG (goal bias, border choice, half-normal pick, the 5% draw) is re-seeded with a known local seed and
+// modelled bit-exactly on the Lean side; recorded: the control sampler's control (C) and step count (K) per iteration.
+static std::string opKpiece(const Toks &t, std::string &playLine)
+{
+    size_t i = 1;
+    Problem pb;
+    pb.parse(t, i);
+    double cell = needKVbits(t, i, "cell");
+    unsigned nclose = needKV(t, i, "nclose");
+    double bias = needKVbits(t, i, "bias");
+    unsigned long seed = needKV(t, i, "seed");
+    unsigned long iters = needKV(t, i, "iters");
+    if (i != t.size() || iters > 2000000 || !(cell > 1e-6) || !(bias >= 0) || !(bias <= 1) || nclose > 1000)
+        throw vp::ParseError("kpiece args");
+    const std::uint_fast32_t lseed = (std::uint_fast32_t)((seed * 7919u + 12345u) % 4000000000u + 1u);
+    ompl::RNG::setSeed(seed + 1);
+    Events ev;
+    const Sys &sys = pb.sys;
+    std::shared_ptr<SysPropagator> prop;
+    auto si = makeSI(sys, prop);
+    si->setStateValidityChecker(std::make_shared<EnvValidity>(si, pb.env));
+    sys.cspace->setControlSamplerAllocator([&ev](const oc::ControlSpace *cs) {
+        return std::make_shared<RecControlSampler>(cs, cs->allocDefaultControlSampler(), &ev);
+    });
+    si->setup();
+    auto pdef = std::make_shared<ob::ProblemDefinition>(si);
+    ob::State *s0 = si->allocState();
+    for (const auto &st0 : pb.starts)
+    {
+        sys.space->copyFromReals(s0, st0);
+        pdef->addStartState(s0);
+    }
+    si->freeState(s0);
+    pdef->setGoal(makeGoal(pb.goalKind, si, pb.goal, pb.thr, &ev));
+    auto planner = std::make_shared<KPIECEx>(si);
+    planner->setProjectionEvaluator(std::make_shared<XYProjection>(sys.space, sys, cell));
+    planner->setGoalBias(bias);
+    planner->setMaxCloseSamplesCount(nclose);
+    planner->setProblemDefinition(pdef);
+    planner->setup();
+    planner->seedRng(lseed);
+    playLine = "kpieceplay";
+    for (size_t j = 1; j < t.size(); ++j)
+        if (t[j].rfind("seed=", 0) != 0 && t[j].rfind("iters=", 0) != 0)
+            playLine += " " + t[j];
+    playLine += " bf=" + vp::bits(planner->getBorderFraction()) + " good=" + vp::bits(planner->getGoodCellScoreFactor()) +
+                " bad=" + vp::bits(planner->getBadCellScoreFactor()) + " lseed=" + std::to_string(lseed);
+    ev.log.clear();
+    auto cnt = std::make_shared<vp::EvalCounter>();
+    cnt->fireAt = iters;
+    ob::PlannerStatus st = planner->solve(vp::evalCountPtc(cnt));
+    playLine += " draws" + ev.log;
+    return showSolution(sys, pdef, st, *si) + " | " + planner->dump(sys);
+}
+
 static std::string opPlan(const Toks &t)
 {
     size_t i = 1;
@@ -1234,7 +1471,7 @@ int main()
                 std::cout << opPath(t, 1) << "\n";
             else if (t[0] == "pgeom")
                 std::cout << opPath(t, 2) << "\n";
-            else if ((t[0] == "rrt" || t[0] == "plan" || t[0] == "sst") && planned)
+            else if ((t[0] == "rrt" || t[0] == "plan" || t[0] == "sst" || t[0] == "est" || t[0] == "kpiece") && planned)
                 std::cout << "bad-op\n";  // the global RNG seed can be set once per process
             else if (t[0] == "rrt")
             {
@@ -1245,6 +1482,20 @@ int main()
             }
             else if (t[0] == "rrtplay")
                 std::cout << opRrtPlay(t) << "\n";
+            else if (t[0] == "kpiece")
+            {
+                planned = true;
+                std::string play;
+                std::string out = opKpiece(t, play);
+                std::cout << out << "\n" << play << "\n";
+            }
+            else if (t[0] == "est")
+            {
+                planned = true;
+                std::string play;
+                std::string out = opEst(t, play);
+                std::cout << out << "\n" << play << "\n";
+            }
             else if (t[0] == "sst")
             {
                 planned = true;
